@@ -9,13 +9,13 @@ H = '/verif/xh/h_c11.py'
 def main(tier):
     run = Run(PID, tier)
     jobs = []
-    names = (1, 2, 3, 4) if tier == 'quick' else range(10)
+    names = (1, 2, 3, 4, 10) if tier == 'quick' else range(12)
     for i in names:
         for wf in (0, 1):
             params = {'name_i': i, 'maxdist': 4, 'file': wf} if tier == 'quick' else {'name_i': i, 'file': wf}
             jobs.append(dict(path=H, fname='_c11_one', params=params, timeout=600 if tier == 'quick' else 1500, self_reach=True,
                              label=f'one item, database/taxon/genome text pool entry #{i}, source file {"present" if wf else "absent"}',
-                             bounds={'label': '10 texts (commas, quotes, newlines, CR LF, tabs, non-ASCII, empty, padded)', 'predicted': 'none / species / unreportable taxon with reportable ancestor / genus / unreportable taxon without any reportable ancestor',
+                             bounds={'label': '12 texts (commas, quotes, newlines, CR LF, tabs, non-ASCII, empty, padded, leading - and =)', 'predicted': 'none / species / unreportable taxon with reportable ancestor / genus / unreportable taxon without any reportable ancestor',
                                      'next': 'none / species / genus', 'distance': 'float32 pool (0, 1, 0.1f, 1/3f, denormal, 1-ulp, 2.5e-7)' + (' first 4' if tier == 'quick' else ''),
                                      'source file': 'present' if wf else 'absent', 'failed strict result with warning and error': 'yes / no', 'archive readers': 'two alive at once, read in the order old, new, old'}))
     if tier == 'quick':
@@ -28,7 +28,7 @@ def main(tier):
     jobs.sort(key=lambda j: -j['timeout'])
     xprop.run_jobs(run, jobs, rung=tier)
     xprop.note_sources(run, ['src/gambit/results.py', 'src/gambit/util/json.py', 'src/gambit/query.py', 'src/gambit/classify.py'])
-    run.bounds = {'result sets': '0..2 (quick) / 3 (thorough) items', 'text fields': 'pool of 10 awkward strings used for labels, taxon / genome / database names and metadata',
+    run.bounds = {'result sets': '0..2 (quick) / 3 (thorough) items', 'text fields': 'pool of 12 awkward strings used for labels, taxon / genome / database names and metadata',
                   'numbers': 'float32 distance pool, threshold pool incl. 0.1+0.2', 'formats': 'csv (parsed back with csv.reader), json (parsed back with json.loads), archive (read back with ResultsArchiveReader against the same in-memory database)'}
     run.stubs = ['none: the real exporters, the csv / json modules and SQLAlchemy run natively on each cell; the database is an in-memory SQLite built by the harness']
     run.outside = ['texts and numbers outside the pools', 'larger result sets', 'writing to real files']
